@@ -150,18 +150,21 @@ def gen_quat(rng, eps, atol=1e-5):
     return q, tag
 
 
-def gen_scale(rng):
+def gen_scale(rng, atol=1e-5):
+    """scale in the property's range [1e-3, 1e3]; a user tolerance atol ≥ 1e-4 moves the lower end to 10·atol
+    (scales ≤ atol are 'rank deficient' for the code by definition of its test)"""
+    lo = max(1e-3, 10 * atol)
     c = rng.random()
     if c < 0.3:
-        return rng.choice([1e-3, 1e3, 1.0, 2.0, 0.5, 1e-2, 1e2])
-    return 10 ** rng.uniform(-3, 3)
+        return max(lo, rng.choice([1e-3, 1e3, 1.0, 2.0, 0.5, 1e-2, 1e2]))
+    return 10 ** rng.uniform(math.log10(lo), 3)
 
 
 def gen_elem(rng, eps, atol):
     """(t, q, s, tag) — a Sim3-like parameter set from which an element of any of the four types is cut"""
     q, tag = gen_quat(rng, eps, atol)
     t = U.vec(rng, U.gen_mag(rng, eps, 1e3))
-    return t, q, gen_scale(rng), tag
+    return t, q, gen_scale(rng, atol), tag
 
 
 def rows_of(name, t, q, s):
@@ -194,7 +197,7 @@ def call_conv(case, M):
     if api == "from_matrix_pos":
         return p.from_matrix(arg, U.ltype(name), case["check"], case["rtol"], case["atol"])
     if api == "defaults":  # only generated when check/rtol/atol are the defaults
-        return p.from_matrix(arg, U.ltype(name))
+        return p.from_matrix(arg, U.ltype(name)) if case.get("ci", 0) % 2 else fn_of(name)(arg)
     return fn_of(name)(arg, **kw)
 
 
@@ -276,7 +279,7 @@ def prep_roundtrip(ctx: Ctx, case):
     try:
         with warnings.catch_warnings(record=True) as wrn:
             warnings.simplefilter("always")
-            Y = mon.call("from_matrix", lambda m: call_conv(case, m), M)
+            Y = mon.call("from_matrix", lambda m: call_conv(case, m), M.clone())   # M itself stays pristine
     except Exception as e:
         ctx.fail(case, f"raises: {case['api']}({name}, layout {case['lay']}, lshape {shape}, check={case['check']}, {dtype}) on X.matrix() "
                        f"raised {type(e).__name__}: {str(e)[:120]}")
@@ -451,8 +454,16 @@ def gen_reject(rng, ci):
             M[:3, :3] = perturb(rng, M[:3, :3], kind, mag)
         mats.append(slice_layout(M, lay).to(U.dt(dtype)).double().tolist())
     return {"stream": "reject", "type": name, "dtype": dtype, "lay": lay, "check": check, "rtol": rtol, "atol": atol,
-            "api": rng.choice(["from_matrix", "direct"]), "kind": kind, "factor": mag / tol if tol else 0.0, "bad_items": bad_items,
+            "api": ("defaults" if ((rtol, atol) == (1e-5, 1e-5) and check and rng.random() < 0.7) else rng.choice(["from_matrix", "direct"])),
+            "kind": kind, "factor": mag / tol if tol else 0.0, "bad_items": bad_items,
             "mats": mats, "ci": ci}
+
+
+def exact_det(R):
+    from fractions import Fraction as F
+    a = [[F(v) for v in row] for row in R]
+    return (a[0][0] * (a[1][1] * a[2][2] - a[1][2] * a[2][1]) - a[0][1] * (a[1][0] * a[2][2] - a[1][2] * a[2][0])
+            + a[0][2] * (a[1][0] * a[2][1] - a[1][1] * a[2][0]))
 
 
 def band_of(case):
@@ -461,42 +472,39 @@ def band_of(case):
 
 
 def py_verdict(case, M64):
-    """independent float64 evaluation of the acceptance condition: returns 'ok' | 'raise' | 'band' (too close to call)"""
+    """independent float64 evaluation of the stated acceptance condition:
+    'ok' (must return) | 'raise' (must raise ValueError) | 'band' / 'any' (too close to call / not specified)"""
     import numpy as np
     rtol, atol, b = case["rtol"], case["atol"], 2 * band_of(case) + 1e-9
     scaled = case["type"] in ("Sim3", "RxSO3")
-    A = M64[:, :3, :3].numpy()
+    A = [R for R in M64[:, :3, :3].numpy()]
+    if scaled:
+        dets = [float(np.linalg.det(R)) for R in A]
+        eps = common.EPS[case["dtype"]]
+        if any(abs(d) <= 1e3 * eps * float(np.prod(np.linalg.norm(R, axis=1))) for R, d in zip(A, dets)):
+            # determinant 0 up to the kernel's rounding: its float cube root is tiny, 0 or NaN — some ValueError must
+            # come with check=True; with check=False the outcome is not specified
+            return "raise" if case["check"] else "any"
+        if A and all(d >= 0 for d in dets):
+            tiny = [d ** (1 / 3) / atol if atol > 0 else math.inf for d in dets]
+            if all(v < 1 - b for v in tiny):
+                return "raise"                     # every scale ≈ 0: the rank test, whatever `check`
+            if all(v <= 1 + b for v in tiny):
+                return "band"
+        if any(not d > 0 for d in dets):
+            return "raise" if case["check"] else "any"
+        A = [R / d ** (1 / 3) for R, d in zip(A, dets)]
+    if not case["check"]:
+        return "ok"
     worst = 0.0
-    ss = []
     for R in A:
-        d = float(np.linalg.det(R))
-        if scaled:
-            ss.append(d)
-            if not d > 0:
-                worst = math.inf
-                continue
-            R = R / d ** (1 / 3)
-            d = 1.0 if True else d
-            d = float(np.linalg.det(R))
-        if not case["check"]:
-            continue
         E = R @ R.T - np.eye(3)
         for i in range(3):
             for j in range(3):
                 lim = atol + (rtol if i == j else 0.0)
                 worst = max(worst, abs(E[i, j]) / lim if lim > 0 else (math.inf if E[i, j] != 0 else 0.0))
         lim = atol + rtol
-        worst = max(worst, abs(d - 1) / lim if lim > 0 else math.inf)
-    if scaled:
-        tiny = [abs(d) ** (1 / 3) / atol if atol > 0 else math.inf for d in ss]
-        if all(d >= 0 for d in ss) and all(v < 1 - b for v in tiny):
-            return "raise"          # every scale ≈ 0: rank test
-        if all(d >= 0 for d in ss) and all(v <= 1 + b for v in tiny):
-            return "band"
-        if not case["check"]:
-            return "ok" if worst == 0.0 else "nonfinite-or-ok"
-    if not case["check"]:
-        return "ok"
+        worst = max(worst, abs(float(np.linalg.det(R)) - 1) / lim if lim > 0 else math.inf)
     if worst > 1 + b:
         return "raise"
     if worst < 1 - b:
@@ -509,15 +517,18 @@ def prep_reject(ctx: Ctx, case):
     D = U.dt(dtype)
     M64 = torch.tensor(case["mats"], dtype=torch.float64)
     n = M64.shape[0]
-    M = M64.to(D)
+    M = M64.to(D).clone()
+    Min = M.clone()
     got, exc = None, None
     try:
         with warnings.catch_warnings():
             warnings.simplefilter("ignore")
-            Y = call_conv(case, M)
+            Y = call_conv(case, Min)
         got = "ok" if bool(torch.isfinite(Y.tensor()).all()) else "nonFinite"
     except Exception as e:
         got, exc = classify_exc(e), e
+    if not torch.equal(torch.nan_to_num(Min), torch.nan_to_num(M)):
+        ctx.fail(case, f"mutates: {name} conversion modified its argument (reject stream, check={case['check']})")
     ctx.count(f"reject.{case['kind']}.{'raise' if exc is not None else 'return'}")
     # ---- oracle (independent float64 evaluation of the stated acceptance condition)
     pv = py_verdict(case, M64)
@@ -535,11 +546,25 @@ def prep_reject(ctx: Ctx, case):
         c2 = dict(case, rtol=case["rtol"] * f, atol=case["atol"] * f)
         lines.append(model_line(c2, M64, n))
 
+    # a determinant within the kernel's contract error of 0 has an unpredictable float cube root (tiny, 0 or NaN):
+    # which ValueError is raised (or, with check=False, what garbage is returned) is then not determined by the model
+    illdet = False
+    if name in ("Sim3", "RxSO3"):
+        fdet = torch.det(M[..., :3, :3]).double().reshape(-1).tolist()      # what the code's kernel returns
+        for R, fd in zip(M64[:, :3, :3], fdet):
+            if abs(float(torch.det(R))) <= 1e3 * common.EPS[dtype] * float(R.norm(dim=-1).prod()):
+                if not (fd == 0.0 and exact_det(R.tolist()) == 0):          # exactly singular on both sides: determined
+                    illdet = True
+    if illdet:
+        ctx.count("reject.illconditioned-det")
+
     def finish(reps):
         verdicts = []
         for r in reps:
             st, toks = common.parse_reply(r)
             verdicts.append("ok" if st == "ok" else toks)
+        if illdet and verdicts[0] != "ok":
+            verdicts += ["notOrthogonal", "detNotOne", "notFullRank"] + (["nonFinite", "ok"] if not case["check"] else [])
         if got not in verdicts:
             ctx.disagree("reject", case, f"code: {got}, model: {verdicts} {desc}")
         ctx.note_case(("rej", name, dtype, case["lay"], case["check"], case["rtol"], case["atol"], case["kind"],
@@ -652,7 +677,8 @@ def prep_euler(ctx: Ctx, case):
             if mode == "e2q" and abs(math.sin(pt)) < 1 - case["eeps"] - 64 * eps and abs(r) < math.pi - 1e-6 and abs(y) < math.pi - 1e-6 \
                     and abs(pt) <= math.pi / 2:
                 tolb = K_ROT * eps / max(cp, 1e-3) * math.pi
-                d = (back[i] - Ef[i]).abs().max().item()
+                dd = (back[i] - Ef[i]).abs().tolist()
+                d = max(min(dd[0], abs(dd[0] - 2 * math.pi)), dd[1], min(dd[2], abs(dd[2] - 2 * math.pi)))  # roll/yaw: same angle
                 if d > tolb:
                     ctx.fail(case, f"inverse: euler(euler2SO3(e)) differs from e by {d:.3e} > {tolb:.3e} at e=({r!r},{pt!r},{y!r}) ({dtype})")
             lines.append("c11.euler2SO3 " + common.wire_list(Ef[i].tolist()))
@@ -721,7 +747,7 @@ def prep_euler(ctx: Ctx, case):
                     tols = [0.0, tp, 2 * K_ROT * eps * math.pi]
                 errs = [abs(a - b) for a, b in zip(Af[i].tolist(), want)]
                 # roll / yaw are angles: ±pi are the same angle when the sine underflows to ±0
-                errs = [min(e, abs(e - 2 * math.pi)) if k != 1 else e for k, e in enumerate(errs)]
+                errs = [min(e % (2 * math.pi), 2 * math.pi - e % (2 * math.pi)) if k != 1 else e for k, e in enumerate(errs)]
                 if all(e <= t for e, t in zip(errs, tols)):
                     ok = True
                     break
@@ -840,7 +866,7 @@ def run(ctx: Ctx):
     run_dispatch(ctx)
     run_kernel(ctx, ctx.pick(150, 1500))
     run_roundtrip(ctx, ctx.pick(700, 9000))
-    run_reject(ctx, ctx.pick(450, 6000))
+    run_reject(ctx, ctx.pick(600, 6000))
     run_euler(ctx, ctx.pick(500, 7000))
     run_warn(ctx, ctx.pick(80, 800))
 
@@ -849,9 +875,9 @@ def search(ctx: Ctx):
     """only after a proof / the correspondence broke: hunt harder for an input on which the property's own
     statement fails on the real code (the oracles inside the prep_* functions do that)"""
     n0 = len(ctx.disagreements)
-    run_roundtrip(ctx, 3000)
-    run_reject(ctx, 2000)
-    run_euler(ctx, 2500)
+    run_roundtrip(ctx, 1500)
+    run_reject(ctx, 1000)
+    run_euler(ctx, 1500)
     del ctx.disagreements[n0:]      # the search reports failing inputs only
 
 
